@@ -12,6 +12,7 @@ import (
 	"hash"
 	"strings"
 	"testing"
+	"time"
 	"unicode/utf8"
 
 	"pgregory.net/rapid"
@@ -74,9 +75,40 @@ type rc4Case struct {
 	// DstExtra[i] is by how many bytes the destination of call i is longer than its source (cipher.Stream
 	// allows len(dst) > len(src)); missing entries are 0.
 	DstExtra []int `json:"dst_extra,omitempty"`
+	// Spare > 0: every destination and source slice has that many bytes of capacity beyond its length, filled
+	// with sentinel bytes that must still be there after the call; 0: capacity == length.
+	Spare int `json:"spare_cap,omitempty"`
 }
 
 func sentinel(i int) byte { return byte(0xA5 ^ i*29) }
+
+// withSpare returns a slice of n bytes (zero) whose backing array goes on for spare sentinel bytes.
+func withSpare(n, spare int) []byte {
+	b := make([]byte, n+spare)
+	for i := n; i < len(b); i++ {
+		b[i] = sentinel(i)
+	}
+	return b[:n]
+}
+
+// spareIntact: are the bytes between len and cap still the sentinels withSpare put there?
+func spareIntact(b []byte) (int, bool) {
+	full := b[:cap(b)]
+	for i := len(b); i < len(full); i++ {
+		if full[i] != sentinel(i) {
+			return i, false
+		}
+	}
+	return 0, true
+}
+
+// wipe overwrites a buffer that was handed to a constructor: a cipher that has been constructed owns its key
+// schedule and no longer looks at the caller's bytes (crypto/rc4, crypto/aes do not either).
+func wipe(b []byte) {
+	for i := range b {
+		b[i] = ^b[i]
+	}
+}
 
 func checkRC4(c rc4Case) []vf.Finding {
 	ref, err := stdrc4.NewCipher(c.Key)
@@ -90,6 +122,8 @@ func checkRC4(c rc4Case) []vf.Finding {
 	if err != nil {
 		return []vf.Finding{vf.F("rc4.NewRC4WithKey", "valid-key-rejected", "key length %d: %v", len(c.Key), err)}
 	}
+	wipe(keyCopy) // the caller's buffer is the caller's again
+	spare := max(c.Spare, 0)
 	got := make([]byte, 0, len(c.Data))
 	type kept struct {
 		out []byte // the slice the library wrote to, kept until the end
@@ -102,13 +136,14 @@ func checkRC4(c rc4Case) []vf.Finding {
 		if ci < len(c.DstExtra) && c.DstExtra[ci] > 0 {
 			extra = c.DstExtra[ci]
 		}
-		dst := make([]byte, sz+extra)
+		dst := withSpare(sz+extra, spare)
 		var src []byte
 		if c.InPlace {
 			copy(dst, c.Data[off:off+sz])
 			src = dst[:sz]
 		} else {
-			src = append([]byte{}, c.Data[off:off+sz]...)
+			src = withSpare(sz, spare)
+			copy(src, c.Data[off:off+sz])
 		}
 		for i := sz; i < len(dst); i++ {
 			dst[i] = sentinel(i)
@@ -116,6 +151,11 @@ func checkRC4(c rc4Case) []vf.Finding {
 		lib.XORKeyStream(dst, src)
 		if !c.InPlace && !bytes.Equal(src, c.Data[off:off+sz]) {
 			return []vf.Finding{vf.F("rc4.XORKeyStream", "source-modified", "chunk at %d", off)}
+		}
+		for _, b := range [][]byte{dst, src} {
+			if i, ok := spareIntact(b); !ok {
+				return []vf.Finding{vf.F("rc4.XORKeyStream", "writes-beyond-len", "call %d: src %d bytes, dst %d bytes, %d bytes of spare capacity each: byte %d of a backing array (beyond the slice's length) changed", ci, sz, len(dst), spare, i)}
+			}
 		}
 		for i := sz; i < len(dst); i++ {
 			if dst[i] != sentinel(i) {
@@ -140,7 +180,9 @@ func checkRC4(c rc4Case) []vf.Finding {
 		}
 	}
 	// involution: a second cipher with the same key decrypts
-	lib2, _ := rc4.NewRC4WithKey(append([]byte{}, c.Key...))
+	key2 := append([]byte{}, c.Key...)
+	lib2, _ := rc4.NewRC4WithKey(key2)
+	wipe(key2)
 	back := make([]byte, len(got))
 	lib2.XORKeyStream(back, got)
 	if !bytes.Equal(back, c.Data) {
@@ -180,6 +222,11 @@ func genRC4(t *rapid.T) rc4Case {
 		for range c.Plan {
 			c.DstExtra = append(c.DstExtra, genExtra(t))
 		}
+	}
+	// exact-capacity buffers (an over-read or over-write past len panics) alternate with buffers that have
+	// spare capacity (a write past len lands in the sentinels)
+	if rapid.Bool().Draw(t, "spareCap") {
+		c.Spare = rapid.SampledFrom([]int{1, 8, 64, 300}).Draw(t, "spare")
 	}
 	return c
 }
@@ -223,9 +270,97 @@ func TestRC4KeyLengthsExhaustive(t *testing.T) {
 			if kl%3 == 0 {
 				c.DstExtra = []int{kl, 0, 1}
 			}
+			if kl%4 >= 2 {
+				c.Spare = kl
+			}
 			yield(c)
 		}
 	}, checkRC4, nil)
+}
+
+// ---- rc4-single-call-sizes (deterministic) ------------------------------------------------------------
+//
+// The random sub-checks keep a case's data within 8 KiB. Here one XORKeyStream call carries a length around and
+// beyond 2^16 (where a 16-bit position or counter wraps), followed by a short second call that continues the
+// stream. A call that does not come back is a finding of its own (10 s of CPU time for what takes a
+// millisecond); after the first such call the remaining sizes are skipped, since every one of them would hold
+// a core for as long.
+
+type rc4BigCase struct {
+	KeyLen  int  `json:"key_len"`
+	Len     int  `json:"len"`
+	Follow  int  `json:"follow"`
+	InPlace bool `json:"in_place"`
+}
+
+var rc4Hung bool
+
+func checkRC4Big(c rc4BigCase) []vf.Finding {
+	if rc4Hung {
+		return nil
+	}
+	key := make([]byte, c.KeyLen)
+	for i := range key {
+		key[i] = byte(i*37 + c.Len)
+	}
+	data := make([]byte, c.Len+c.Follow)
+	for i := range data {
+		data[i] = byte(i*11 + i>>8 + i>>16)
+	}
+	ref, err := stdrc4.NewCipher(key)
+	if err != nil {
+		return []vf.Finding{vf.F("harness", "bad-case", "%v", err)}
+	}
+	want := make([]byte, len(data))
+	ref.XORKeyStream(want, data)
+	lib, err := rc4.NewRC4WithKey(append([]byte{}, key...))
+	if err != nil {
+		return []vf.Finding{vf.F("rc4.NewRC4WithKey", "valid-key-rejected", "key length %d: %v", len(key), err)}
+	}
+	src := append(make([]byte, 0, c.Len), data[:c.Len]...)
+	dst := src
+	if !c.InPlace {
+		dst = make([]byte, c.Len)
+	}
+	tail := make([]byte, c.Follow)
+	var panicked any
+	finished := vf.WithTimeout(10*time.Second, func() {
+		defer func() { panicked = recover() }()
+		lib.XORKeyStream(dst, src)
+		lib.XORKeyStream(tail, data[c.Len:])
+	})
+	if !finished {
+		rc4Hung = true
+		return []vf.Finding{vf.F("rc4.XORKeyStream", "single-call-does-not-return", "one call with %d bytes (key length %d, in place %v) did not return within 10 s of CPU time", c.Len, c.KeyLen, c.InPlace)}
+	}
+	if panicked != nil {
+		return []vf.Finding{vf.F("rc4.XORKeyStream", "single-call-panics", "one call with %d bytes (key length %d, in place %v): %v", c.Len, c.KeyLen, c.InPlace, panicked)}
+	}
+	got := append(append([]byte{}, dst...), tail...)
+	if !bytes.Equal(got, want) {
+		i := 0
+		for got[i] == want[i] {
+			i++
+		}
+		return []vf.Finding{vf.F("rc4.XORKeyStream", "keystream-differs-from-rc4", "one call with %d bytes, then one with %d (key length %d, in place %v): first difference at byte %d", c.Len, c.Follow, c.KeyLen, c.InPlace, i)}
+	}
+	return nil
+}
+
+func TestRC4SingleCallSizes(t *testing.T) {
+	s := vf.Begin(t, P, "rc4-single-call-sizes")
+	s.SetExhaustive()
+	sizes := []int{16383, 16384, 32767, 32768, 65535, 65536, 65537, 70000, 131071, 131072, 131073, 200000}
+	if vf.Thorough() {
+		sizes = append(sizes, 1<<20-1, 1<<20, 1<<24+1)
+	}
+	s.Note("one XORKeyStream call of %v bytes (separate and in-place destination, key lengths 5 and 256), then a 33-byte call on the same cipher", sizes)
+	vf.Enum(s, func(yield func(rc4BigCase)) {
+		for _, n := range sizes {
+			yield(rc4BigCase{5, n, 33, false})
+			yield(rc4BigCase{256, n, 33, true})
+		}
+	}, checkRC4Big, nil)
 }
 
 type rc4BadKey struct {
@@ -287,9 +422,11 @@ func checkRC4Instances(c rc4InstCase) []vf.Finding {
 		if refs[i], err = stdrc4.NewCipher(c.Keys[i]); err != nil {
 			return []vf.Finding{vf.F("harness", "bad-case", "%v", err)}
 		}
-		if libs[i], err = rc4.NewRC4WithKey(append([]byte{}, c.Keys[i]...)); err != nil {
+		key := append([]byte{}, c.Keys[i]...)
+		if libs[i], err = rc4.NewRC4WithKey(key); err != nil {
 			return []vf.Finding{vf.F("rc4.NewRC4WithKey", "valid-key-rejected", "key length %d: %v", len(c.Keys[i]), err)}
 		}
+		wipe(key) // the buffer the key came in is reused by its owner
 		return nil
 	}
 	for i := range libs {
@@ -380,6 +517,9 @@ type cmacCase struct {
 type cop struct {
 	Kind string `json:"op"` // w, sum, sumprefix, reset
 	Data vf.Hex `json:"data,omitempty"`
+	// Spare (sumprefix, w): the slice handed over has that many bytes of capacity beyond its length, holding
+	// sentinel bytes; 0: capacity == length. With room for a digest, Sum(prefix) may append in place.
+	Spare int `json:"spare_cap,omitempty"`
 }
 
 func mkCipher(name string, key []byte) (cipher.Block, error) {
@@ -398,12 +538,14 @@ func keyLen(name string) int {
 }
 
 func checkCMAC(c cmacCase) []vf.Finding {
-	blk, err := mkCipher(c.Cipher, c.Key)
+	key := append([]byte{}, c.Key...)
+	blk, err := mkCipher(c.Cipher, key)
 	if err != nil {
 		return []vf.Finding{vf.F("harness", "bad-case", "%v", err)}
 	}
 	blk2, _ := mkCipher(c.Cipher, c.Key)
 	h := cmac.New(blk)
+	wipe(key) // the key bytes are the caller's again once the MAC exists
 	if h.Size() != blk.BlockSize() {
 		return []vf.Finding{vf.F("cmac.Size", "size-not-block-size", "%s: Size %d", c.Cipher, h.Size())}
 	}
@@ -416,9 +558,14 @@ func checkCMAC(c cmacCase) []vf.Finding {
 	for i, o := range c.Ops {
 		switch o.Kind {
 		case "w":
-			n, err := h.Write(o.Data)
+			in := withSpare(len(o.Data), max(o.Spare, 0))
+			copy(in, o.Data)
+			n, err := h.Write(in)
 			if n != len(o.Data) || err != nil {
 				return []vf.Finding{vf.F("cmac.Write", "short-write", "op %d", i)}
+			}
+			if _, ok := spareIntact(in); !ok || !bytes.Equal(in, o.Data) {
+				return []vf.Finding{vf.F("cmac.Write", "input-modified", "op %d: %d bytes with %d bytes of spare capacity", i, len(o.Data), o.Spare)}
 			}
 			model = append(model, o.Data...)
 		case "reset":
@@ -427,12 +574,17 @@ func checkCMAC(c cmacCase) []vf.Finding {
 		case "sum", "sumprefix":
 			var prefix []byte
 			if o.Kind == "sumprefix" {
-				prefix = append([]byte{}, o.Data...)
+				// its own backing array each time, so that an append in place disturbs nobody else's result
+				prefix = withSpare(len(o.Data), max(o.Spare, 0))
+				copy(prefix, o.Data)
 			}
 			got := h.Sum(prefix)
 			want := refcrypto.CMAC(blk2, model)
-			if !bytes.Equal(got[:len(prefix)], o.Data[:len(prefix)]) || !bytes.Equal(got[len(prefix):], want) {
-				return []vf.Finding{vf.F("cmac.Sum", "differs-from-rfc4493", "%s op %d (%s) after %d bytes since reset: got %x want %x%x; ops=%s", c.Cipher, i, o.Kind, len(model), got, prefix, want, opKinds(c.Ops))}
+			if len(got) != len(prefix)+len(want) || !bytes.Equal(got[:len(prefix)], o.Data[:len(prefix)]) || !bytes.Equal(got[len(prefix):], want) {
+				return []vf.Finding{vf.F("cmac.Sum", "differs-from-rfc4493", "%s op %d (%s, %d bytes of spare capacity) after %d bytes since reset: got %x want %x%x; ops=%s", c.Cipher, i, o.Kind, o.Spare, len(model), got, prefix, want, opKinds(c.Ops))}
+			}
+			if !bytes.Equal(prefix, o.Data[:len(prefix)]) {
+				return []vf.Finding{vf.F("cmac.Sum", "prefix-modified", "%s op %d: prefix %x is now %x", c.Cipher, i, []byte(o.Data), prefix)}
 			}
 			sums = append(sums, kept{i, got, append(append([]byte{}, prefix...), want...)})
 		}
@@ -480,11 +632,20 @@ func genCMAC(t *rapid.T) cmacCase {
 			default:
 				ln = rapid.IntRange(0, 256).Draw(t, "len")
 			}
-			ops = append(ops, cop{"w", genBytes(t, "data", ln)})
+			o := cop{Kind: "w", Data: genBytes(t, "data", ln)}
+			if rapid.IntRange(0, 3).Draw(t, "dataSpare") == 0 {
+				o.Spare = rapid.SampledFrom([]int{1, bs, 64}).Draw(t, "spare")
+			}
+			ops = append(ops, o)
 		case 4, 5:
 			ops = append(ops, cop{Kind: "sum"})
 		case 6:
-			ops = append(ops, cop{"sumprefix", genBytes(t, "prefix", rapid.IntRange(0, 20).Draw(t, "plen"))})
+			// half of the prefixes come with spare capacity: too little for the digest, just enough, plenty
+			o := cop{Kind: "sumprefix", Data: genBytes(t, "prefix", rapid.IntRange(0, 20).Draw(t, "plen"))}
+			if rapid.Bool().Draw(t, "prefixSpare") {
+				o.Spare = rapid.SampledFrom([]int{1, bs - 1, bs, bs + 1, 64}).Draw(t, "spare")
+			}
+			ops = append(ops, o)
 		default:
 			ops = append(ops, cop{Kind: "reset"})
 		}
@@ -527,7 +688,7 @@ func TestCMACLengthsExhaustive(t *testing.T) {
 					msg[i] = byte(i*5 + n)
 				}
 				for cut := 0; cut <= n; cut++ {
-					yield(cmacCase{name, key, []cop{{"w", msg[:cut]}, {"w", msg[cut:]}, {Kind: "sum"}, {Kind: "sum"}}})
+					yield(cmacCase{name, key, []cop{{Kind: "w", Data: msg[:cut]}, {Kind: "w", Data: msg[cut:]}, {Kind: "sum"}, {Kind: "sumprefix", Data: msg[:cut%5], Spare: (n % 3) * 8}}})
 				}
 			}
 		}
@@ -678,19 +839,47 @@ func TestCMACInstances(t *testing.T) {
 type padCase struct {
 	Block int `json:"block"`
 	Len   int `json:"len"`
+	// Shape of the slice handed to Pad: 0 capacity == length (Pad must allocate); otherwise capacity beyond the
+	// length, holding sentinel bytes that are no pad bytes: 1 one byte, 2 one byte less than the padding needs,
+	// 3 exactly what the padding needs, 4 one byte more, 5 plenty (300).
+	Shape int `json:"shape,omitempty"`
+}
+
+func padMessage(block, n int) []byte {
+	m := make([]byte, n)
+	for i := range m {
+		m[i] = byte(i*13 + block)
+	}
+	// a message ending in bytes that look like padding is the interesting case
+	if n > 0 {
+		m[n-1] = byte(n % 7)
+	}
+	return m
 }
 
 func checkPad(c padCase) []vf.Finding {
-	m := make([]byte, c.Len, c.Len+300)
-	for i := range m {
-		m[i] = byte(i*13 + c.Block)
+	orig := padMessage(c.Block, c.Len)
+	n := c.Block - c.Len%c.Block // the pad count PKCS#7 prescribes
+	spare := 0
+	switch c.Shape {
+	case 1:
+		spare = 1
+	case 2:
+		spare = n - 1
+	case 3:
+		spare = n
+	case 4:
+		spare = n + 1
+	case 5:
+		spare = 300
 	}
-	// a message ending in bytes that look like padding is the interesting case
-	if c.Len > 0 {
-		m[c.Len-1] = byte(c.Len % 7)
+	m := make([]byte, c.Len+spare)
+	copy(m, orig)
+	for i := c.Len; i < len(m); i++ {
+		// dirty spare capacity: anything but the pad byte
+		m[i] = byte(n) ^ (0x5A + byte(i)&1)
 	}
-	orig := append([]byte{}, m...)
-	p, err := pkcs7.Pad(m[:c.Len:c.Len], uint8(c.Block))
+	p, err := pkcs7.Pad(m[:c.Len], uint8(c.Block))
 	if err != nil {
 		return []vf.Finding{vf.F("pkcs7.Pad", "valid-block-size-rejected", "block %d: %v", c.Block, err)}
 	}
@@ -699,21 +888,40 @@ func checkPad(c padCase) []vf.Finding {
 		fs = append(fs, vf.F("pkcs7.Pad", "padded-length-wrong", "block %d len %d -> %d", c.Block, c.Len, len(p)))
 		return fs
 	}
-	if !bytes.Equal(p[:c.Len], orig) {
-		fs = append(fs, vf.F("pkcs7.Pad", "message-bytes-changed", "block %d len %d", c.Block, c.Len))
-	}
-	n := len(p) - c.Len
-	for _, b := range p[c.Len:] {
-		if int(b) != n {
-			fs = append(fs, vf.F("pkcs7.Pad", "pad-byte-not-count", "block %d len %d: pad byte %d count %d", c.Block, c.Len, b, n))
-			break
+	judge := func(when string) {
+		if !bytes.Equal(p[:c.Len], orig) {
+			fs = append(fs, vf.F("pkcs7.Pad", "message-bytes-changed", "block %d len %d, %d bytes of spare capacity%s", c.Block, c.Len, spare, when))
+		}
+		for i, b := range p[c.Len:] {
+			if int(b) != len(p)-c.Len {
+				fs = append(fs, vf.F("pkcs7.Pad", "pad-byte-not-count", "block %d len %d, %d bytes of spare capacity%s: pad byte %d of %d is %d", c.Block, c.Len, spare, when, i, len(p)-c.Len, b))
+				break
+			}
 		}
 	}
-	u, err := pkcs7.Unpad(append([]byte{}, p...))
+	judge("")
+	if !bytes.Equal(m[:c.Len], orig) {
+		fs = append(fs, vf.F("pkcs7.Pad", "input-modified", "block %d len %d", c.Block, c.Len))
+	}
+	in := append([]byte{}, p...)
+	u, err := pkcs7.Unpad(in[:len(in):len(in)])
 	if err != nil {
 		fs = append(fs, vf.F("pkcs7.Unpad", "own-padding-rejected", "block %d len %d: %v", c.Block, c.Len, err))
 	} else if !bytes.Equal(u, orig) {
 		fs = append(fs, vf.F("pkcs7.Unpad", "unpad-pad-not-identity", "block %d len %d: got %d bytes", c.Block, c.Len, len(u)))
+	}
+	if len(fs) > 0 {
+		return fs
+	}
+	// what Pad and Unpad handed back are the caller's values: padding and unpadding another message (other
+	// length, other pad count) leaves them as they were
+	o := padMessage(c.Block+1, c.Len+1+c.Block/2)
+	if p2, err := pkcs7.Pad(o[:len(o):len(o)], uint8(c.Block)); err == nil {
+		pkcs7.Unpad(append([]byte{}, p2...))
+	}
+	judge(" (looked at again after another message was padded)")
+	if !bytes.Equal(u, orig) {
+		fs = append(fs, vf.F("pkcs7.Unpad", "returned-message-changed-by-later-call", "block %d len %d", c.Block, c.Len))
 	}
 	return fs
 }
@@ -721,6 +929,7 @@ func checkPad(c padCase) []vf.Finding {
 func TestPKCS7Grid(t *testing.T) {
 	s := vf.Begin(t, P, "pkcs7-grid")
 	s.SetExhaustive()
+	s.Note("every block size 1..255 x every length of the tier's range; the shape of the slice handed to Pad (capacity == length, or 1 / pad-1 / pad / pad+1 / 300 bytes of dirty spare capacity) rotates with block+length, so every block size meets every shape")
 	vf.Enum(s, func(yield func(padCase)) {
 		for b := 1; b <= 255; b++ {
 			maxLen := 2*b + 1
@@ -728,14 +937,33 @@ func TestPKCS7Grid(t *testing.T) {
 				maxLen = 600
 			}
 			for l := 0; l <= maxLen; l++ {
-				yield(padCase{b, l})
+				yield(padCase{b, l, (b + l) % 6})
 			}
 		}
 	}, checkPad, func(c padCase) bool { return c.Len%c.Block != 0 })
 }
 
+// random (block size, length, shape) combinations beyond the grid's length range (up to four blocks), every
+// shape of the input slice drawn independently of block size and length
+func TestPKCS7PadShapes(t *testing.T) {
+	s := vf.Begin(t, P, "pkcs7-pad-shapes")
+	vf.Rapid(s, vf.N(6000, 60000), func(t *rapid.T) padCase {
+		b := rapid.SampledFrom([]int{1, 2, 7, 8, 15, 16, 17, 32, 64, 128, 254, 255, -1, -1, -1}).Draw(t, "blockClass")
+		if b < 0 {
+			b = rapid.IntRange(1, 255).Draw(t, "block")
+		}
+		l := b*rapid.IntRange(0, 3).Draw(t, "blocks") + rapid.IntRange(0, b).Draw(t, "rest")
+		c := padCase{b, l, rapid.IntRange(0, 5).Draw(t, "shape")}
+		s.Class(fmt.Sprintf("shape:%d", c.Shape))
+		return c
+	}, checkPad, func(c padCase) bool { return c.Shape != 0 })
+}
+
 type unpadCase struct {
 	Buf vf.Hex `json:"buf"`
+	// Spare: bytes that follow the buffer in its backing array (capacity beyond the length); they are not part
+	// of the buffer and must neither be read as padding nor be written. Empty: capacity == length.
+	Spare vf.Hex `json:"spare,omitempty"`
 }
 
 func refUnpadValid(x []byte) (int, bool) {
@@ -755,8 +983,12 @@ func refUnpadValid(x []byte) (int, bool) {
 }
 
 func checkUnpad(c unpadCase) []vf.Finding {
-	in := append([]byte{}, c.Buf...)
+	full := append(append(make([]byte, 0, len(c.Buf)+len(c.Spare)), c.Buf...), c.Spare...)
+	in := full[:len(c.Buf)]
 	got, err := pkcs7.Unpad(in)
+	if !bytes.Equal(full[:len(c.Buf)], c.Buf) || !bytes.Equal(full[len(c.Buf):], c.Spare) {
+		return []vf.Finding{vf.F("pkcs7.Unpad", "input-modified", "%x (+%d bytes of spare capacity) is now %x", []byte(c.Buf), len(c.Spare), full)}
+	}
 	p, valid := refUnpadValid(c.Buf)
 	if valid {
 		if err != nil {
@@ -790,7 +1022,7 @@ func TestPKCS7RejectExhaustive(t *testing.T) {
 	vf.Enum(s, func(yield func(unpadCase)) {
 		var rec func(prefix []byte)
 		rec = func(prefix []byte) {
-			yield(unpadCase{append([]byte{}, prefix...)})
+			yield(unpadCase{Buf: append([]byte{}, prefix...)})
 			if len(prefix) == maxLen {
 				return
 			}
@@ -815,12 +1047,91 @@ func TestPKCS7RejectRandom(t *testing.T) {
 				b[i] = byte(p)
 			}
 			if rapid.Bool().Draw(t, "corrupt") {
-				i := rapid.IntRange(n-p, n-1).Draw(t, "pos")
+				// the farthest pad byte (the one a too-short window misses) as often as any other
+				i := n - p
+				if rapid.Bool().Draw(t, "anyPos") {
+					i = rapid.IntRange(n-p, n-1).Draw(t, "pos")
+				}
 				b[i] ^= byte(rapid.IntRange(1, 255).Draw(t, "x"))
 			}
 		}
-		return unpadCase{b}
+		c := unpadCase{Buf: b}
+		// capacity == length alternates with spare capacity that goes on like padding, or holds anything
+		switch rapid.IntRange(0, 3).Draw(t, "spareClass") {
+		case 2:
+			c.Spare = bytes.Repeat([]byte{b[n-1]}, rapid.IntRange(1, 40).Draw(t, "spareLen"))
+		case 3:
+			c.Spare = genBytes(t, "spare", rapid.IntRange(1, 40).Draw(t, "spareLen"))
+		}
+		return c
 	}, checkUnpad, nearMiss)
+}
+
+// ---- pkcs7-near-miss (deterministic) ---------------------------------------------------------------------
+//
+// Buffers that end in p correct pad bytes for the pad counts at which something changes (1, 2, around the usual
+// block sizes 8 and 16, 127/128, and 253, 254, 255: the largest count a byte can claim), at lengths from exactly
+// p up to beyond 512, with no, each single one, of the p pad bytes corrupted - in particular the farthest from
+// the end, which a check that looks at a fixed window misses - and with a count that claims more bytes than the
+// buffer has. Decided by the same reference rule as every other buffer.
+
+type nearCase struct {
+	Pad   int  `json:"pad"`             // the count the last byte claims before corruption
+	Len   int  `json:"len"`             // buffer length; Len < Pad: the claim exceeds the buffer
+	Pos   int  `json:"pos"`             // which of the Pad pad bytes is corrupted, counted from the farthest (0); -1 none
+	Xor   byte `json:"xor,omitempty"`   // what the corrupted byte is XORed with
+	Spare int  `json:"spare,omitempty"` // bytes of spare capacity continuing the padding
+}
+
+func (c nearCase) buffer() unpadCase {
+	b := make([]byte, c.Len)
+	for i := range b {
+		b[i] = byte(0xC3 ^ i*7) // message bytes; where one coincides with the pad count the reference rule decides
+	}
+	for i := max(c.Len-c.Pad, 0); i < c.Len; i++ {
+		b[i] = byte(c.Pad)
+	}
+	if c.Pos >= 0 && c.Len-c.Pad+c.Pos >= 0 && c.Len-c.Pad+c.Pos < c.Len {
+		b[c.Len-c.Pad+c.Pos] ^= c.Xor
+	}
+	return unpadCase{Buf: b, Spare: bytes.Repeat([]byte{byte(c.Pad)}, max(c.Spare, 0))}
+}
+
+func TestPKCS7NearMiss(t *testing.T) {
+	s := vf.Begin(t, P, "pkcs7-near-miss")
+	s.SetExhaustive()
+	pads := []int{1, 2, 3, 7, 8, 9, 15, 16, 17, 31, 32, 33, 127, 128, 129, 253, 254, 255}
+	s.Note("pad counts %v x buffer lengths {p, p+1, p+7, p+16, 255, 256, 257, 300, 511, 513} (>= p) x {intact, each single pad byte XOR 0x01 / 0x80 / 0xFF}, plus counts 2..255 claiming more than the buffer holds and count 0; capacity == length alternates with spare capacity that continues the padding", pads)
+	vf.Enum(s, func(yield func(nearCase)) {
+		k := 0
+		spare := func() int { k++; return []int{0, 0, 1, 17}[k%4] }
+		for _, p := range pads {
+			seen := map[int]bool{}
+			for _, n := range []int{p, p + 1, p + 7, p + 16, 255, 256, 257, 300, 511, 513} {
+				if n < p || seen[n] {
+					continue
+				}
+				seen[n] = true
+				yield(nearCase{Pad: p, Len: n, Pos: -1, Spare: spare()})
+				for pos := 0; pos < p; pos++ {
+					for _, x := range []byte{0x01, 0x80, 0xFF} {
+						yield(nearCase{Pad: p, Len: n, Pos: pos, Xor: x, Spare: spare()})
+					}
+				}
+			}
+		}
+		// the count claims more bytes than there are (every byte of the buffer is the count), and count 0
+		for p := 2; p <= 255; p++ {
+			for _, n := range []int{1, p / 2, p - 1} {
+				if n >= 1 && n < p {
+					yield(nearCase{Pad: p, Len: n, Pos: -1, Spare: p - n})
+				}
+			}
+		}
+		for _, n := range []int{1, 2, 16, 255, 256} {
+			yield(nearCase{Pad: 0, Len: n, Pos: -1})
+		}
+	}, func(c nearCase) []vf.Finding { return checkUnpad(c.buffer()) }, func(c nearCase) bool { return c.Pos >= 0 || c.Len < c.Pad })
 }
 
 // ---- GPP ------------------------------------------------------------------
@@ -859,8 +1170,32 @@ func checkGPP(c gppCase) []vf.Finding {
 	if dec, err := gppp.GPPPDecryptBase64(strings.TrimRight(base64.StdEncoding.EncodeToString(want), "=")); err != nil || dec != c.Password {
 		fs = append(fs, vf.F("gppp.GPPPDecryptBase64", "unpadded-base64-not-accepted", "%q: got %q err %v", c.Password, dec, err))
 	}
-	if dec, err := gppp.GPPPDecryptBytes(append([]byte{}, want...)); err != nil || dec != c.Password {
-		fs = append(fs, vf.F("gppp.GPPPDecryptBytes", "differs-from-reference", "%q: got %q err %v", c.Password, dec, err))
+	// exact-capacity ciphertext, and ciphertext followed by spare capacity; either way the buffer is the caller's
+	// again after the call: it is overwritten before the result is looked at
+	for _, spare := range []int{0, 16} {
+		ct := withSpare(len(want), spare)
+		copy(ct, want)
+		dec, err := gppp.GPPPDecryptBytes(ct)
+		wipe(ct[:cap(ct)])
+		if err != nil || dec != c.Password {
+			fs = append(fs, vf.F("gppp.GPPPDecryptBytes", "differs-from-reference", "%q (ciphertext with %d bytes of spare capacity, overwritten after the call): got %q err %v", c.Password, spare, dec, err))
+		}
+	}
+	if len(fs) > 0 {
+		return fs
+	}
+	// results are values of their own: after another password has gone through both directions, the strings
+	// handed out before still read the same
+	dec, err := gppp.GPPPDecryptBytes(append([]byte{}, want...))
+	encWas, decWas := strings.Clone(enc), strings.Clone(dec)
+	other := c.Password + "\u00e9x"
+	if e2, err := gppp.GPPPEncrypt(other); err != nil || e2 != base64.StdEncoding.EncodeToString(refGPPEncrypt(other)) {
+		fs = append(fs, vf.F("gppp.GPPPEncrypt", "differs-from-aes256cbc-mskey-zeroiv", "%q (right after %q): got %s err %v", other, c.Password, e2, err))
+	} else if d2, err := gppp.GPPPDecryptBase64(e2); err != nil || d2 != other {
+		fs = append(fs, vf.F("gppp.GPPPDecryptBase64", "decrypt-encrypt-not-identity", "%q (right after %q): got %q err %v", other, c.Password, d2, err))
+	}
+	if err != nil || enc != encWas || dec != decWas || dec != c.Password {
+		fs = append(fs, vf.F("gppp", "returned-string-changed-by-later-call", "%q: encrypted %q -> %q, decrypted %q -> %q (err %v)", c.Password, encWas, enc, decWas, dec, err))
 	}
 	return fs
 }
